@@ -111,6 +111,7 @@ package jmespath
 //@   ensures [at-end] old(lexer.currentPos) >= len(lexer.expression) ==> result == -1 && lexer.lastWidth == 0 && lexer.currentPos == old(lexer.currentPos)
 //@   ensures [advances] old(lexer.currentPos) < len(lexer.expression) ==> 1 <= lexer.lastWidth && lexer.lastWidth <= 4 && lexer.currentPos == old(lexer.currentPos) + lexer.lastWidth && result >= 0
 //@   ensures [decoded] old(lexer.currentPos) < len(lexer.expression) ==> result == specRuneAt(lexer.expression, old(lexer.currentPos)) && lexer.lastWidth == specWidthAt(lexer.expression, old(lexer.currentPos))
+//@   ensures {C14} [ascii-is-one-byte] old(lexer.currentPos) < len(lexer.expression) ==> ((result < 128) <==> (byteAt(lexer.expression, old(lexer.currentPos)) < 128)) && (result < 128 ==> lexer.lastWidth == 1 && toByte(result) == byteAt(lexer.expression, old(lexer.currentPos)))
 
 //@ func (*Lexer).peek
 //@   props C05
@@ -120,12 +121,14 @@ package jmespath
 //@   ensures [position-unchanged] lexer.currentPos == old(lexer.currentPos)
 //@   ensures [at-end] lexer.currentPos >= len(lexer.expression) ==> result == -1 && lexer.lastWidth == 0
 //@   ensures [looks-ahead] lexer.currentPos < len(lexer.expression) ==> result >= 0 && result == specRuneAt(lexer.expression, lexer.currentPos) && lexer.lastWidth == specWidthAt(lexer.expression, lexer.currentPos) && 1 <= lexer.lastWidth && lexer.currentPos + lexer.lastWidth <= len(lexer.expression)
+//@   ensures {C14} [ascii-is-one-byte] lexer.currentPos < len(lexer.expression) ==> ((result < 128) <==> (byteAt(lexer.expression, lexer.currentPos) < 128)) && (result < 128 ==> lexer.lastWidth == 1 && toByte(result) == byteAt(lexer.expression, lexer.currentPos))
 
 //@ func (*Lexer).syntaxError
 //@   props C05,C17
 //@   requires 1 <= lexer.currentPos && lexer.currentPos <= len(lexer.expression)
 //@   assigns \nothing
 //@   ensures {C17} [location] result.Expression == lexer.expression && 0 <= result.Offset && result.Offset <= len(lexer.expression)
+//@   ensures {C14,C17} [offset-of-the-last-byte-read] result.Offset == lexer.currentPos - 1
 
 //@ func (*Lexer).matchOrElse
 //@   props C05
@@ -134,6 +137,7 @@ package jmespath
 //@   ensures [cursor-ok] specLexOK(lexer.expression, lexer.currentPos, lexer.lastWidth) && lexer.currentPos >= old(lexer.currentPos)
 //@   ensures {C17} [token-position] 0 <= result.position && result.position <= len(lexer.expression)
 //@   ensures [token-type] result.tokenType == matchedType || result.tokenType == singleCharType
+//@   ensures {C14} [token-start] result.position == old(lexer.currentPos) - old(lexer.lastWidth)
 
 //@ func (*Lexer).consumeLBracket
 //@   props C05
@@ -142,6 +146,7 @@ package jmespath
 //@   ensures [cursor-ok] specLexOK(lexer.expression, lexer.currentPos, lexer.lastWidth) && lexer.currentPos >= old(lexer.currentPos)
 //@   ensures {C17} [token-position] 0 <= result.position && result.position <= len(lexer.expression)
 //@   ensures [token-type] result.tokenType == tFilter || result.tokenType == tFlatten || result.tokenType == tLbracket
+//@   ensures {C14} [token-start] result.position == old(lexer.currentPos) - old(lexer.lastWidth)
 
 //@ func (*Lexer).consumeNumber
 //@   props C05
@@ -150,6 +155,7 @@ package jmespath
 //@   ensures [cursor-ok] specLexOK(lexer.expression, lexer.currentPos, lexer.lastWidth) && lexer.currentPos >= old(lexer.currentPos)
 //@   ensures {C17} [token-position] 0 <= result.position && result.position <= len(lexer.expression)
 //@   ensures [token-type] result.tokenType == tNumber
+//@   ensures {C14} [token-start] result.position == old(lexer.currentPos) - old(lexer.lastWidth)
 //@   loop 1 invariant specLexOK(lexer.expression, lexer.currentPos, lexer.lastWidth) && start <= lexer.currentPos && lexer.currentPos >= old(lexer.currentPos) && start == old(lexer.currentPos) - old(lexer.lastWidth)
 //@   loop 1 decreases len(lexer.expression) - lexer.currentPos
 
@@ -160,7 +166,11 @@ package jmespath
 //@   ensures [cursor-ok] specLexOK(lexer.expression, lexer.currentPos, lexer.lastWidth) && lexer.currentPos >= old(lexer.currentPos)
 //@   ensures {C17} [token-position] 0 <= result.position && result.position <= len(lexer.expression)
 //@   ensures [token-type] result.tokenType == tUnquotedIdentifier
+//@   ensures {C14} [the-scanned-text] result.position == old(lexer.currentPos) - old(lexer.lastWidth) && result.length == lexer.currentPos - result.position && result.value == substr(lexer.expression, result.position, lexer.currentPos)
+//@   ensures {C14} [only-identifier-characters] (forall k int :: old(lexer.currentPos) <= k && k < lexer.currentPos ==> specIdentChar(toRune(byteAt(lexer.expression, k))))
+//@   ensures {C14} [longest-match] lexer.currentPos < len(lexer.expression) ==> !specIdentChar(specRuneAt(lexer.expression, lexer.currentPos))
 //@   loop 1 invariant specLexOK(lexer.expression, lexer.currentPos, lexer.lastWidth) && start <= lexer.currentPos && lexer.currentPos >= old(lexer.currentPos) && start == old(lexer.currentPos) - old(lexer.lastWidth)
+//@   loop 1 invariant {C14} [identifier-characters-so-far] (forall k int :: old(lexer.currentPos) <= k && k < lexer.currentPos ==> specIdentChar(toRune(byteAt(lexer.expression, k))))
 //@   loop 1 decreases len(lexer.expression) - lexer.currentPos
 
 //@ define lexOK(l) = specLexOK(l.expression, l.currentPos, l.lastWidth)
@@ -174,7 +184,10 @@ package jmespath
 //@   ensures [cursor-ok] lexOK(lexer) && lexer.currentPos >= old(lexer.currentPos)
 //@   ensures {C17} [error-location] err != nil ==> isSyntaxError(err) && err.Expression == lexer.expression && err.Offset == len(lexer.expression)
 //@   ensures [found] err == nil ==> old(lexer.currentPos) < lexer.currentPos
+//@   ensures {C14} [fails-exactly-when-no-unescaped-delimiter-follows] (err == nil) <==> specScanFrom(lexer.expression, old(lexer.currentPos), end) >= 0
+//@   ensures {C14} [text-up-to-the-first-unescaped-delimiter] err == nil ==> result == substr(lexer.expression, old(lexer.currentPos), specScanFrom(lexer.expression, old(lexer.currentPos), end)) && lexer.currentPos == specScanFrom(lexer.expression, old(lexer.currentPos), end) + specWidthAt(lexer.expression, specScanFrom(lexer.expression, old(lexer.currentPos), end))
 //@   loop 1 invariant lexOK(lexer) && start == old(lexer.currentPos) && start <= lexer.currentPos - lexer.lastWidth && ((current == -1) <==> (lexer.lastWidth == 0)) && (current == -1 ==> lexer.currentPos >= len(lexer.expression)) && (current != -1 ==> start < lexer.currentPos)
+//@   loop 1 invariant {C14} [scan-continues] (current == -1 ==> specScanFrom(lexer.expression, start, end) == -1) && (current != -1 ==> current == specRuneAt(lexer.expression, lexer.currentPos - lexer.lastWidth) && lexer.lastWidth == specWidthAt(lexer.expression, lexer.currentPos - lexer.lastWidth) && lexer.currentPos - lexer.lastWidth < len(lexer.expression) && specScanFrom(lexer.expression, lexer.currentPos - lexer.lastWidth, end) == specScanFrom(lexer.expression, start, end))
 //@   loop 1 decreases len(lexer.expression) - lexer.currentPos + (current == -1 ? 0 : 1)
 
 //@ func (*Lexer).consumeLiteral
@@ -184,6 +197,9 @@ package jmespath
 //@   ensures [cursor-ok] lexOK(lexer) && lexer.currentPos >= old(lexer.currentPos)
 //@   ensures {C17} [error-location] err != nil ==> isSyntaxError(err) && err.Expression == lexer.expression && err.Offset == len(lexer.expression)
 //@   ensures {C17} [token-position] err == nil ==> 0 <= result.position && result.position <= len(lexer.expression) && result.tokenType == tJSONLiteral
+//@   ensures {C14} [token-start] err == nil ==> result.position == old(lexer.currentPos)
+//@   ensures {C14} [the-text-between-the-backticks-with-escaped-backticks-restored] err == nil ==> specScanFrom(lexer.expression, old(lexer.currentPos), '`') >= 0 && result.value == replaceAll(substr(lexer.expression, old(lexer.currentPos), specScanFrom(lexer.expression, old(lexer.currentPos), '`')), "\\`", "`")
+//@   ensures {C14} [fails-exactly-when-unclosed] (err == nil) <==> specScanFrom(lexer.expression, old(lexer.currentPos), '`') >= 0
 
 //@ func (*Lexer).consumeQuotedIdentifier
 //@   props C05
@@ -192,6 +208,9 @@ package jmespath
 //@   ensures [cursor-ok] lexOK(lexer) && lexer.currentPos >= old(lexer.currentPos)
 //@   ensures {C17} [error-location] isSyntaxError(err) ==> err.Expression == lexer.expression && err.Offset == len(lexer.expression)
 //@   ensures {C17} [token-position] err == nil ==> 0 <= result.position && result.position <= len(lexer.expression) && result.tokenType == tQuotedIdentifier
+//@   ensures {C14} [token-start] err == nil ==> result.position == old(lexer.currentPos) - 1
+//@   ensures {C14} [json-decoding-of-exactly-the-quoted-text] err == nil ==> specScanFrom(lexer.expression, old(lexer.currentPos), '"') >= 0 && result.value == jsonDecodeStrOf(bytesOf("\"" + substr(lexer.expression, old(lexer.currentPos), specScanFrom(lexer.expression, old(lexer.currentPos), '"')) + "\""))
+//@   ensures {C14} [fails-exactly-when-unclosed-or-not-a-json-string] (err == nil) <==> (specScanFrom(lexer.expression, old(lexer.currentPos), '"') >= 0 && jsonValid(bytesOf("\"" + substr(lexer.expression, old(lexer.currentPos), specScanFrom(lexer.expression, old(lexer.currentPos), '"')) + "\"")))
 
 //@ func (*Lexer).consumeRawStringLiteral
 //@   props C05
@@ -200,8 +219,12 @@ package jmespath
 //@   ensures [cursor-ok] lexOK(lexer) && lexer.currentPos >= old(lexer.currentPos)
 //@   ensures {C17} [error-location] err != nil ==> isSyntaxError(err) && err.Expression == lexer.expression && err.Offset == len(lexer.expression)
 //@   ensures {C17} [token-position] err == nil ==> 0 <= result.position && result.position <= len(lexer.expression) && result.tokenType == tStringLiteral
+//@   ensures {C14} [token-start] err == nil ==> result.position == old(lexer.currentPos)
 //@   ensures {C13} [buffer-left-empty] err == nil ==> lexer.buf == ""
+//@   ensures {C14} [fails-exactly-when-unclosed] (err == nil) <==> thd(specRawFrom(lexer.expression, old(lexer.currentPos), old(lexer.currentPos), ""))
+//@   ensures {C14} [the-text-with-escaped-quotes-restored-and-every-other-backslash-kept] err == nil ==> result.value == fst(specRawFrom(lexer.expression, old(lexer.currentPos), old(lexer.currentPos), "")) && lexer.currentPos == snd(specRawFrom(lexer.expression, old(lexer.currentPos), old(lexer.currentPos), ""))
 //@   loop 1 invariant lexOK(lexer) && start == old(lexer.currentPos) && start <= currentIndex && currentIndex <= lexer.currentPos && (current != -1 ==> currentIndex + 1 <= lexer.currentPos && lexer.lastWidth >= 1) && (current == -1 ==> lexer.currentPos >= len(lexer.expression))
+//@   loop 1 invariant {C14} [raw-scan-continues] (current == -1 ==> lexer.lastWidth == 0 && !thd(specRawFrom(lexer.expression, start, start, ""))) && (current != -1 ==> lexer.lastWidth >= 1 && current == specRuneAt(lexer.expression, lexer.currentPos - lexer.lastWidth) && lexer.lastWidth == specWidthAt(lexer.expression, lexer.currentPos - lexer.lastWidth) && (current < 128 ==> lexer.lastWidth == 1) && lexer.currentPos - lexer.lastWidth < len(lexer.expression) && currentIndex <= lexer.currentPos - lexer.lastWidth && same(specRawFrom(lexer.expression, currentIndex, lexer.currentPos - lexer.lastWidth, lexer.buf), specRawFrom(lexer.expression, start, start, "")))
 //@   loop 1 decreases len(lexer.expression) - lexer.currentPos + (current == -1 ? 0 : 1)
 
 //@ func (*Lexer).tokenize
@@ -213,7 +236,16 @@ package jmespath
 //@   ensures {C04} [no-eof-token-on-failure] err != nil ==> tokensOK(result, len(result), len(expression))
 //@   ensures {C05,C17} [tokens-well-formed] err == nil ==> len(result) >= 1 && result[len(result)-1].tokenType == tEOF && result[len(result)-1].position == len(expression) && tokensOK(result, len(result)-1, len(expression))
 //@   ensures {C13} [buffer-left-empty] err == nil ==> lexer.buf == ""
+//@   ensures {C14} [an-identifier-token-is-exactly-a-token-that-starts-with-a-letter-or-underscore] (forall j int :: 0 <= j && j < len(result) - 1 ==> ((result[j].tokenType == tUnquotedIdentifier) <==> specIdentStart(specRuneAt(expression, specTokenStart(result[j])))))
+//@   ensures {C14} [delimited-tokens-carry-the-decoded-text] (forall j int :: 0 <= j && j < len(result) - 1 ==> (result[j].tokenType == tQuotedIdentifier ==> specScanFrom(expression, result[j].position + 1, '"') >= 0 && result[j].value == jsonDecodeStrOf(bytesOf("\"" + substr(expression, result[j].position + 1, specScanFrom(expression, result[j].position + 1, '"')) + "\""))) && (result[j].tokenType == tStringLiteral ==> thd(specRawFrom(expression, result[j].position, result[j].position, "")) && result[j].value == fst(specRawFrom(expression, result[j].position, result[j].position, ""))) && (result[j].tokenType == tJSONLiteral ==> specScanFrom(expression, result[j].position, '`') >= 0 && result[j].value == replaceAll(substr(expression, result[j].position, specScanFrom(expression, result[j].position, '`')), "\\`", "`")))
+//@   ensures {C14} [whitespace-is-never-an-error] isSyntaxError(err) && err.Offset < len(expression) ==> !specSpace(specRuneAt(expression, lexer.currentPos - lexer.lastWidth))
+//@   ensures {C14} [whitespace-starts-no-token] (forall j int :: 0 <= j && j < len(result) - 1 ==> !specSpace(specRuneAt(expression, specTokenStart(result[j]))))
+//@   ensures {C14} [an-identifier-token-is-the-longest-run-of-identifier-characters] (forall j int :: 0 <= j && j < len(result) - 1 && result[j].tokenType == tUnquotedIdentifier ==> result[j].value == substr(expression, result[j].position, result[j].position + result[j].length) && (forall k int :: result[j].position < k && k < result[j].position + result[j].length ==> specIdentChar(toRune(byteAt(expression, k)))) && (result[j].position + result[j].length < len(expression) ==> !specIdentChar(specRuneAt(expression, result[j].position + result[j].length))))
 //@   loop 1 invariant lexOK(lexer) && lexer.expression == expression && lexer.buf == "" && tokensOK(tokens, len(tokens), len(expression))
+//@   loop 1 invariant {C14} [an-identifier-token-is-exactly-a-token-that-starts-with-a-letter-or-underscore] (forall j int :: 0 <= j && j < len(tokens) ==> 0 <= specTokenStart(tokens[j]) && specTokenStart(tokens[j]) < len(expression) && ((tokens[j].tokenType == tUnquotedIdentifier) <==> specIdentStart(specRuneAt(expression, specTokenStart(tokens[j])))))
+//@   loop 1 invariant {C14} [delimited-tokens-carry-the-decoded-text] (forall j int :: 0 <= j && j < len(tokens) ==> (tokens[j].tokenType == tQuotedIdentifier ==> specScanFrom(expression, tokens[j].position + 1, '"') >= 0 && tokens[j].value == jsonDecodeStrOf(bytesOf("\"" + substr(expression, tokens[j].position + 1, specScanFrom(expression, tokens[j].position + 1, '"')) + "\""))) && (tokens[j].tokenType == tStringLiteral ==> thd(specRawFrom(expression, tokens[j].position, tokens[j].position, "")) && tokens[j].value == fst(specRawFrom(expression, tokens[j].position, tokens[j].position, ""))) && (tokens[j].tokenType == tJSONLiteral ==> specScanFrom(expression, tokens[j].position, '`') >= 0 && tokens[j].value == replaceAll(substr(expression, tokens[j].position, specScanFrom(expression, tokens[j].position, '`')), "\\`", "`")))
+//@   loop 1 invariant {C14} [whitespace-starts-no-token] (forall j int :: 0 <= j && j < len(tokens) ==> !specSpace(specRuneAt(expression, specTokenStart(tokens[j]))))
+//@   loop 1 invariant {C14} [an-identifier-token-is-the-longest-run-of-identifier-characters] (forall j int :: 0 <= j && j < len(tokens) && tokens[j].tokenType == tUnquotedIdentifier ==> tokens[j].length >= 1 && tokens[j].position + tokens[j].length <= len(expression) && tokens[j].value == substr(expression, tokens[j].position, tokens[j].position + tokens[j].length) && (forall k int :: tokens[j].position < k && k < tokens[j].position + tokens[j].length ==> specIdentChar(toRune(byteAt(expression, k)))) && (tokens[j].position + tokens[j].length < len(expression) ==> !specIdentChar(specRuneAt(expression, tokens[j].position + tokens[j].length))))
 //@   loop 1 decreases len(expression) - lexer.currentPos
 
 // ---------------------------------------------------------------------------
@@ -310,7 +342,7 @@ package jmespath
 //@   ensures [cursor] err == nil ==> PI(p) && p.index >= old(p.index)
 //@   ensures {C04,C05} [well-formed-ast] err == nil ==> wfNode(result)
 //@   ensures {C04} [never-an-empty-node] err == nil ==> result.nodeType != ASTEmpty
-//@   ensures {C03,C04} [parses-as-grammar] parsesAs(p, err, result, specNud(p.tokens, old(p.index) - 1))
+//@   ensures {C03,C04,C14} [parses-as-grammar] parsesAs(p, err, result, specNud(p.tokens, old(p.index) - 1))
 //@   ensures {C17} [error-location] parseErrOK(p, err)
 
 //@ func (*Parser).led
@@ -1000,6 +1032,25 @@ package jmespath
 //@   requires specTokType(toks, i) == tPipe && 0 <= i && i < len(toks)
 //@   ensures thd(specLed(toks, i, left)) <==> thd(specExpr(toks, i + 1, 1))
 //@   ensures thd(specLed(toks, i, left)) ==> fst(specLed(toks, i, left)).nodeType == ASTPipe && nkids(fst(specLed(toks, i, left))) == 2 && same(kid(fst(specLed(toks, i, left)), 0), left) && same(kid(fst(specLed(toks, i, left)), 1), fst(specExpr(toks, i + 1, 1))) && snd(specLed(toks, i, left)) == snd(specExpr(toks, i + 1, 1))
+//@   checkonly
+
+//@ lemma a-literal-token-denotes-the-json-value-of-its-text
+//@   props C14
+//@   var toks Sl_S_token
+//@   var i int
+//@   requires 0 <= i && i < len(toks) && toks[i].tokenType == tJSONLiteral
+//@   ensures thd(specNud(toks, i)) <==> jsonValid(bytesOf(toks[i].value))
+//@   ensures thd(specNud(toks, i)) ==> fst(specNud(toks, i)).nodeType == ASTLiteral && same(fst(specNud(toks, i)).value, jsonDecodeOf(bytesOf(toks[i].value)))
+//@   checkonly
+
+//@ lemma a-raw-string-token-denotes-its-text-and-an-identifier-token-selects-its-name
+//@   props C14
+//@   var toks Sl_S_token
+//@   var i int
+//@   requires 0 <= i && i < len(toks)
+//@   ensures toks[i].tokenType == tStringLiteral ==> thd(specNud(toks, i)) && fst(specNud(toks, i)).nodeType == ASTLiteral && same(fst(specNud(toks, i)).value, mkStr(toks[i].value))
+//@   ensures toks[i].tokenType == tUnquotedIdentifier ==> thd(specNud(toks, i)) && fst(specNud(toks, i)).nodeType == ASTField && same(fst(specNud(toks, i)).value, mkStr(toks[i].value))
+//@   ensures toks[i].tokenType == tQuotedIdentifier && thd(specNud(toks, i)) ==> fst(specNud(toks, i)).nodeType == ASTField && same(fst(specNud(toks, i)).value, mkStr(toks[i].value))
 //@   checkonly
 
 //@ lemma binding-powers-are-the-specified-precedences
